@@ -296,7 +296,7 @@ CLAIMS = {
          "reachable package directory exists and declares its own name and there is no cycle), coherent (accepted implies at most one impl per "
          "(trait, type)), order_independent (acceptance is invariant under any permutation of the type-check/merge order), enum_independent, "
          "merge_check_redundant (orphan rule + visibility + acyclicity already exclude cross-package duplicates). Tie: generated worlds "
-         "(layouts with cycles, diamonds, missing, misdeclared, inconsistent directories x placements of 8 reference forms and of trait and inherent impls by "
+         "(layouts with cycles, diamonds, missing, misdeclared, inconsistent directories x placements of 12 reference forms (incl. three-segment paths P::S::f / P::T::m and values of un-imported types) and of trait and inherent impls by "
          "trait owner x target type (named, primitive, Vec/Ref/tuple/array/function/dyn/generic instance over own, foreign or primitive "
          "arguments), in the root package and in libraries, in files with and without imports) compiled by the real pipeline::compile; accept/reject, graph error and "
          "set of diagnostic classes must equal the model's; a declarative oracle (package-level, from the property text) demands rejection "
